@@ -177,7 +177,8 @@ static inline int gen_unit_r(pbt::Ctx& c, R* q) {
 		for (int i = 0; i < 4; ++i) q[(i + rot) & 3] = (R)Q[j][i] / Q[j][4] * (c.coin() ? -1 : 1);
 	} else if (k <= 5) {
 		cls = UQ_RANDOM;
-		do { for (int i = 0; i < 4; ++i) q[i] = (R)c.uniform(-1.0, 1.0); } while (dot4(q, q) < 1e-3L);
+		for (int guard = 0; guard < 8; ++guard) { for (int i = 0; i < 4; ++i) q[i] = (R)c.uniform(-1.0, 1.0); if (dot4(q, q) >= 1e-3L) break; }
+		if (dot4(q, q) < 1e-3L) q[0] = 1;
 		normalize_r(q);
 	} else {
 		cls = UQ_MIXED;  // components of very different magnitude
@@ -195,8 +196,9 @@ static inline void gen_orth_r(pbt::Ctx& c, const R* x, R* d) {
 		for (int i = 0; i < 4; ++i) if (x[i] == 0) z[n++] = i;
 		if (n) { for (int i = 0; i < 4; ++i) d[i] = 0; d[z[c.draw(n)]] = c.coin() ? -1 : 1; return; }
 	}
-	for (;;) {
-		for (int i = 0; i < 4; ++i) d[i] = (R)c.uniform(-1.0, 1.0);
+	for (int guard = 0;; ++guard) {  // (a replayed/shrunk case draws zeros for ever: bounded retries, then a deterministic direction)
+		if (guard < 8) for (int i = 0; i < 4; ++i) d[i] = (R)c.uniform(-1.0, 1.0);
+		else { int m = 0; for (int i = 1; i < 4; ++i) if (rabs(x[i]) < rabs(x[m])) m = i; for (int i = 0; i < 4; ++i) d[i] = i == m ? 1 : 0; }
 		R p = dot4(d, x);
 		for (int i = 0; i < 4; ++i) d[i] -= p * x[i];
 		if (dot4(d, d) > 1e-2L) break;
